@@ -59,7 +59,11 @@ impl Panic {
         let file = self.site.rsplit_once(':').map_or(self.site.as_str(), |(f, _)| f);
         let mut msg = String::new();
         let mut in_quote = false;
-        for c in self.msg.chars().take(80) {
+        // the head of the message up to the first ':' or newline names the failing expectation;
+        // what follows is payload (input-dependent)
+        let head: String = self.msg.split(['\n', ':']).next().unwrap_or("").to_string();
+        let head = if head.contains("called") && self.msg.contains("unwrap") { "unwrap-on-Err".to_string() } else { head };
+        for c in head.chars().take(80) {
             if c == '\'' || c == '"' || c == '`' {
                 in_quote = !in_quote;
                 continue;
